@@ -1122,3 +1122,59 @@ def s_r10_per_class_tables(schema: Schema, rep: Report):
         rep.check("S-R10", f"Aggregate.{fn0.name}:cls.{attr}", bad is None, f"{fn0.name}() stores cls.{attr} and {bad[0].name}() reads it back as {bad[2][:40]}: the lookup finds the value a BASE class stored, so a subclass used after its base gets the base's table (children the subclass adds are skipped as unknown, not written, not reachable by flat access)" if bad else "stored per class and not read through inheritance", f"{ci.mod.relpath}:{st0.lineno}")
     if n == 0:
         rep.check("S-R10", "Aggregate:no-class-level-memo", True, "no classmethod of Aggregate assigns an attribute of the class", "")
+
+
+def s_r6c_children_suppliable(schema: Schema, rep: Report):
+    """no validate_args override refuses every instance that carries one of the class's own children"""
+    import re as _re
+    from . import paths as PT
+    from .flat import flat
+
+    rep.rule("S-R6c", "every declared child can be supplied: for each child that a validate_args override tests (kwargs.get('<child>') ...), the exhaustive truth table of the override's conditions contains at least one row in which that child is supplied and nothing is raised - an override whose rules contradict each other for one child makes that child impossible to build, write or read although its declaration looks normal")
+    p = schema.p
+    n = 0
+    for ci, fn0 in validate_overrides(schema):
+        fn = flat(p, ci.module, fn0, ci)
+        kw = fn0.args.kwarg.arg if fn0.args.kwarg else None
+        if kw is None:
+            continue
+        try:
+            pths = PT.enumerate_paths(fn, None, Expander(fn))
+            atoms = PT.atoms_of(pths)
+            if len(atoms) > 12:
+                rep.note(f"S-R6c undecided: {ci.name}.validate_args has {len(atoms)} conditions")
+                continue
+            rows = list(PT.truth_table(pths))
+        except AnalysisError as e:
+            rep.note(f"S-R6c undecided: {ci.name}.validate_args ({e})")
+            continue
+        spec = schema.spec(ci)
+        # atoms that say "child k is supplied": bool(kw.get('k'...)) / kw.get('k'...) is None (negated) / 'k' in kw
+        key_atoms = {}
+        for a in atoms:
+            m = _re.fullmatch(rf"bool\({kw}\.get\('(\w+)'(?:, None)?\)\)", a) or _re.fullmatch(rf"bool\({kw}\['(\w+)'\]\)", a)
+            if m:
+                key_atoms.setdefault(m.group(1), []).append((a, True))
+                continue
+            m = _re.fullmatch(rf"{kw}\.get\('(\w+)'(?:, None)?\) is None", a)
+            if m:
+                key_atoms.setdefault(m.group(1), []).append((a, False))
+                continue
+            m = _re.fullmatch(rf"'(\w+)' in {kw}", a)
+            if m:
+                key_atoms.setdefault(m.group(1), []).append((a, True))
+        for k, ats in sorted(key_atoms.items()):
+            if k not in spec:
+                continue
+            n += 1
+            possible = False
+            for env, ps in rows:
+                if not ps:
+                    continue
+                if not all(env[a] is pol for a, pol in ats):
+                    continue
+                if any(q.outcome != "raise" for q in ps):
+                    possible = True
+                    break
+            rep.check("S-R6c", f"{ci.name}.validate_args:{k}:can-be-supplied", possible, f"every combination of the tested children in which `{k}` is supplied is refused by {ci.name}.validate_args: the declared child {k.upper()} can never be built, written or read" if not possible else "", loc(ci, fn0))
+    rep.unit("children_tested_by_overrides", n)
